@@ -84,6 +84,34 @@ def versions_history(r):
     else: ops.append({'kind': 'merge', 'base': A2, 'local': B2, 'remote': nb([cell(ids[0], srcs[0], o4, 1), cell('rem0te', srcs[2], 'V', 9)]), 'strategy': r.choice(['inline', 'mergetool'])})
     return ops
 
+def failing_call_history(r):
+    """a call that raises BY DESIGN in the middle of a nested operation (generic merge under the documented "fail"
+    strategy, conflict inside a multi-line string / a list / a dict), followed by merges and diffs of documents whose
+    multi-line strings both sides edit: whatever the failed call left behind must not show"""
+    text = ''.join('line %d of the notes\n' % i for i in range(6))
+    def edit(t, i, w): ls = t.splitlines(True); ls[i] = ls[i].rstrip('\n') + ' ' + w + '\n'; return ''.join(ls)
+    where = r.choice(['string', 'list', 'dict'])
+    if where == 'string':
+        base = {'metadata': {'notes': text}}; l = {'metadata': {'notes': edit(text, 2, 'L')}}; rr = {'metadata': {'notes': edit(text, 2, 'R')}}
+        strat = {'/metadata/notes': 'fail'}
+    elif where == 'list':
+        base = {'metadata': {'v': [1, 2, 3]}}; l = {'metadata': {'v': [1, 20, 3]}}; rr = {'metadata': {'v': [1, 30, 3]}}
+        strat = {'/metadata/v': 'fail'}
+    else:
+        base = {'metadata': {'k': 'b'}}; l = {'metadata': {'k': 'l'}}; rr = {'metadata': {'k': 'r'}}
+        strat = {'/metadata/k': 'fail'}
+    ops = []
+    if r.random() < 0.5: ops.append({'kind': 'gmerge', 'base': {'metadata': {'notes': text}}, 'local': {'metadata': {'notes': edit(text, 1, 'l')}},
+                                    'remote': {'metadata': {'notes': edit(text, 4, 'r')}}, 'strategies': {}})
+    ops.append({'kind': 'gmerge', 'base': base, 'local': l, 'remote': rr, 'strategies': strat})
+    i, j = r.sample(range(6), 2)
+    ops.append({'kind': 'gmerge', 'base': {'metadata': {'notes': text}}, 'local': {'metadata': {'notes': edit(text, i, 'mine')}},
+                'remote': {'metadata': {'notes': edit(text, j, 'theirs')}}, 'strategies': {}})
+    nb = lambda t: {'cells': [{'cell_type': 'markdown', 'metadata': {'notes': t}, 'source': 'x'}], 'metadata': {'notes': t}, 'nbformat': 4, 'nbformat_minor': 4}
+    ops.append({'kind': 'merge', 'base': nb(text), 'local': nb(edit(text, i, 'mine')), 'remote': nb(edit(text, j, 'theirs')), 'strategy': r.choice(['inline', 'mergetool', 'use-base'])})
+    ops.append({'kind': 'diff', 'a': nb(text), 'b': nb(edit(text, i, 'mine'))})
+    return ops
+
 def everywhere_pair(r):
     a = gennb.gen_notebook(r, rich=True, minor=5, ncells=r.choice([2, 3, 4]))
     a['metadata'].setdefault('kernelspec', {'display_name': 'Python 3', 'language': 'python', 'name': 'python3'})
@@ -159,7 +187,7 @@ def coq_differ(c):
     return c[0]
 def coq_op(o):
     k = o['kind']
-    if k in ('diff', 'gdiff', 'merge'): return '(OpDiff [%s])' % '; '.join(coq_str(p) for p in PROBES[::2])
+    if k in ('diff', 'gdiff', 'merge', 'gmerge'): return '(OpDiff [%s])' % '; '.join(coq_str(p) for p in PROBES[::2])
     if k == 'targets': return '(OpTargets %s)' % ' '.join('true' if x else 'false' for x in o['shown'])
     if k == 'reset': return 'OpReset'
     ents = []
@@ -216,6 +244,7 @@ def run(tier, seed):
             a, bnb = everywhere_pair(r)
             histories.append([{'kind': 'targets', 'shown': [i not in hidden for i in range(6)]}, lift, {'kind': 'diff', 'a': a, 'b': bnb}])
     for _ in range(24 if tier == 'quick' else 300): histories.append(versions_history(r))
+    for _ in range(9 if tier == 'quick' else 90): histories.append(failing_call_history(r))
     res = core.run_impl([{'op': 'history', 'ops': h} for h in histories], shards=14, isolate=True)
     states = []; evals = 0; nontrivial = set(); hist = {}
     fresh_tasks = []; fresh_idx = []
@@ -233,6 +262,7 @@ def run(tier, seed):
         # choose the last op and one other non-config op for the fresh-process comparison
         cand = [k for k, o in enumerate(h) if not is_config(o)]
         picks = {cand[-1]} | ({r.choice(cand)} if len(cand) > 1 else set())
+        if any(o['kind'] == 'gmerge' for o in h): picks |= set(cand)     # failing-call family: every call is compared
         for k in sorted(picks):
             # the fresh interpreter is configured from the MEANING of the preceding configuration calls, in one step
             fresh_tasks.append({'op': 'history', 'ops': [{'kind': 'ignores', 'mapping': spec_config(h[:k])}, h[k]]})
